@@ -427,10 +427,11 @@ class TrajectoryCalc:
                     or range_vector.y < _cMaximumDrop
                     or self.alt0 + range_vector.y < _cMinimumAltitude
             ):
+                # the filter has not looked at this point: its current_flag belongs to the previous point (already recorded with it)
                 ranges.append(create_trajectory_row(
                     time, range_vector, velocity_vector,
                     velocity, mach, self.spin_drift(time), self.look_angle,
-                    density_factor, drag, self.weight, data_filter.current_flag
+                    density_factor, drag, self.weight, TrajFlag.NONE
                 ))
                 if velocity < _cMinimumVelocity:
                     reason = RangeError.MinimumVelocityReached
